@@ -572,6 +572,13 @@ def thread_message_path(mod):
     for i in ginsts:
         t = i.text
         if pat.search(t) and not (t.startswith(msg_local + " = alloca") or re.match(r'%[\w.]+ = bitcast .* ' + re.escape(msg_local) + r' to i8\*$', t) or i.kind == "icall"):
+            # reading a field of the local copy is harmless: a GEP whose only uses are loads
+            mg = re.match(r'(%[\w.]+) = getelementptr inbounds %struct\.JanetEVGenericMessage, %struct\.JanetEVGenericMessage\* ' + re.escape(msg_local) + r', i32 0, i32 \d+$', t)
+            if mg:
+                pg = re.compile(r'(?<![\w.])' + re.escape(mg.group(1)) + r'(?![\w.])')
+                uses = [x.text for x in ginsts if pg.search(x.text) and not x.text.startswith(mg.group(1) + " = ")]
+                if all(re.match(r'%[\w.]+ = load .+\* ' + re.escape(mg.group(1)) + r', align', u) for u in uses):
+                    continue
             ok = False
     nb = sum(1 for i in ginsts if re.match(r'%[\w.]+ = bitcast .* ' + re.escape(msg_local) + r' to i8\*$', i.text))
     if nb != 1:
